@@ -86,3 +86,30 @@ func (e *Env) PatchDocumentREST(collection, key, document string, d time.Duratio
 	}
 	return out, nil
 }
+
+// CollectionREST sends PUT /api/v1/collections/<collection> (create) or .../<collection>/reset.
+func (e *Env) CollectionREST(collection string, reset bool, d time.Duration) (*RESTResult, error) {
+	h, err := e.RESTHandler()
+	if err != nil {
+		return nil, err
+	}
+	target := "/api/v1/collections/" + url.PathEscape(collection)
+	if reset {
+		target += "/reset"
+	}
+	req := httptest.NewRequest(http.MethodPut, target, nil)
+	ctx, cancel := gocontext.WithTimeout(req.Context(), d)
+	defer cancel()
+	req = req.WithContext(ctx)
+	rec := httptest.NewRecorder()
+	done := make(chan struct{})
+	go func() { defer close(done); h.ServeHTTP(rec, req) }()
+	select {
+	case <-done:
+	case <-time.After(d + time.Second):
+		return &RESTResult{TimedOut: true}, nil
+	}
+	res := rec.Result()
+	b, _ := io.ReadAll(res.Body)
+	return &RESTResult{Status: res.StatusCode, Body: string(b)}, nil
+}
